@@ -74,6 +74,7 @@ let bloom (ops : string list) : string =
          | Util_ext.Err _ -> tok "rb=err"
          | Util_ext.Fault _ -> tok "rb=FAULT")
     | _, None -> tok (o ^ "=noslot")
+    | ["x"; _], Some _ -> slots.(k) <- None; spec.(k) <- None; tok "x"
     | ["i"; _; ty; payload], Some f ->
         (match m_insert f ty payload with
          | None -> tok "i=badtype"
